@@ -98,7 +98,100 @@ CLAIMED = {
              "registrations throw, and (decide +kernel over the whole table) that all 285 defaults lie in their domains and ids are consistent (19 theorems). Exact correspondence on "
              "exhaustive histories over a boundary alphabet + the factory walk (type_id, clone equality and independence, behavioural probes).",
         note=NOTE_COMMON + "'The clone behaves identically' beyond equal parameters is a behavioural probe per factory (testing); write+read goes through C15's codec and is checked by correspondence here."),
+    "C01": dict(
+        category="proof", technique=TECH_GEN, design="DESIGN.md §4 C01",
+        text="The shared loop of the 17 line-search solvers (gd, 10 cgd variants, lbfgs with the two-loop recursion, 5 quasi-Newton updates) is modelled with the line search and the "
+             "objective as oracles and the status decision (solver_t::done, gradient_test, valid, nano::converged, the converged flag / loop guard / return statement of gd/cgd/lbfgs/quasi.cpp) "
+             "RE-TRANSLATED from the source on every run; for every function, line-search behaviour meeting the evaluation contract, epsilon and budget it is proved that status converged "
+             "implies the returned (x, fx, gx) is an evaluation of f with max|g|/max(1,|f|) < epsilon (generic + the four solver families), that every direction handed to the line search is a "
+             "descent direction (two-loop recursion = positive-definite product form; forced -g fallback), the BFGS secant equation, and for strongly convex quadratics lambda^2 |x-x*|^2 <= |grad|^2 "
+             "hence the statement's accuracy bound given convergence (15 theorems). Correspondence: oracle replay of real runs through trace hook H2 (direction, decisions, done arguments, <= 60 "
+             "iterations per run, 1e-9); the python oracle runs the statement's experiment (status, <= 1500 evaluations counted by an independent wrapper, distance to x*) and recomputes the gradient test.",
+        note=NOTE_COMMON + "'Converged within 1500 evaluations' is a floating-point convergence-rate claim: oracle-tested on the statement's problem class, not proved. The line search is an oracle whose contract is C07's theorem."),
+    "C02": dict(
+        category="proof", technique=TECH_GEN, design="DESIGN.md §4 C02",
+        text="Shared skeleton of all solvers: the status decision of solver_t::done (RE-TRANSLATED from solver.cpp/state.cpp on every run) is a trichotomy converged / max_iters / failed; the line-search "
+             "family returns an evaluation of f; update_if_better accepts only a strict decrease, so the best state is one of the evaluated triples, its value never increases and the result is <= f(x0); "
+             "value_test as specified; reported call counters are copies of the function's monotone counters; and evaluations <= max_evals + K for an explicit per-iteration bound K, for EVERY oracle "
+             "behaviour (13 theorems). The 35+3 solver bodies are not modelled individually: what each hands to update_if_better / done is the hypothesis of the skeleton theorems and is monitored on every "
+             "run against an independent evaluation log (correspondence by oracle replay on hooks state.update_if_better / lsearch.end / solver.done). Python oracle: finite unless failed, f <= f0 + allowance "
+             "in the documented class, budget overshoot <= 1100 + 8 dim, over all solver ids x functions x epsilon x max_evals.",
+        note=NOTE_COMMON + "Termination of the individual solver bodies and K <= 1100 + 8 dim are observed (tested), not proved; gradient-sampling solvers use an unseeded RNG (clauses must hold for every draw)."),
+    "C03": dict(
+        category="proof", technique=TECH, design="DESIGN.md §4 C03",
+        text="Bundle (append / serious-step moveto / aggregate / delete_largest with std::nth_element as oracle, smeared e and s, the stopping tests, the curve-search status logic) and ellipsoid (1-D branch, deep-cut "
+             "update, stopping tests) are modelled over any ordered field. Proved for convex f with true sub-gradients and any simplex point returned by the QP oracle (proved to be one for 1 and 2 rows): every bundle "
+             "pair and the aggregate stay global lower bounds under any operation sequence, the bundle never exceeds its capacity, the stopping test certifies f(x) - f(z) <= eps sqrt(n) (1 + |z - x|) for every z, "
+             "converged <=> the test, and for the ellipsoid x* in E(x,H) gives f(x) - f* <= sqrt(g'Hg), best <= f(x_k), the deep cut is valid and the 1-D run keeps x* (26 theorems; n >= 2 run certificate is `_partial`: "
+             "containment after the Loewner-John update is a hypothesis). Correspondence: every logged append / solve / csearch pass / ellipsoid update of real rqb/fpba1/fpba2/ellipsoid runs replayed from the logged "
+             "pre-state (1e-9); python oracle evaluates the statement's two inequalities on sharp functions with known (x*, f*).",
+        note=NOTE_COMMON + "QP sub-solver for >= 3 rows and Loewner-John containment for n >= 2 are monitored hypotheses; ellipsoid convergence within 20000 evaluations is tested only."),
+    "C04": dict(
+        category="proof", technique=TECH_GEN, design="DESIGN.md §4 C04",
+        text="The primal-dual interior-point loop (normalisation, residuals, make_smax, both backtracking stages, the equality-only path) is modelled with LDLT / FullPivLU / make_strictly_feasible as oracles and "
+             "program_t::feasible + the status decision of solver_t::done RE-TRANSLATED from src/program/solver.cpp on every run. Proved in exact arithmetic: normalisation keeps the feasible set and the arg-min, the "
+             "reported fx is the caller's objective at x, u >= 0 and Gx < h are loop invariants, converged <=> the done test on the iterate's own residuals, and for convex Q, u >= 0, x* feasible: "
+             "f(x) - f(x*) <= eta + |rdual| |x - x*| + |v| |rprim| (the statement's bound shape); seven restatement equivalences (row scaling, duplicated / combined equalities, objective scaling, row and variable permutations) "
+             "preserve the feasible set and arg-min (19 theorems). Correspondence: every logged iteration recomputed from (x,u,v),(dx,du,dv) and the caller's program; python oracle with exact rational KKT check, Bland simplex "
+             "and active-set enumeration decides the four inequalities of the statement.",
+        note=NOTE_COMMON + "'Never converged on an infeasible/unbounded program' and the 1e-6 margins are numerical claims: oracle-tested only."),
+    "C06": dict(
+        category="proof", technique=TECH_GEN, design="DESIGN.md §4 C06",
+        text="The sub-gradient inequality f(z) >= f(x) + g(x).(z-x) (+ mu/2 |z-x|^2 where declared) is proved for the kernels of every loss flagged convex (mae, mse, hinge, squared hinge, pinball, exponential, logistic, "
+             "classnll as coded with the epsilon inside the log) and of 17 convex benchmark families incl. the 24 elastic-net prototypes, 7 constraint kinds, min/max compositions, affine composition, sums and ridge terms; "
+             "HasDerivAt for the seven smooth scalar kernels; value >= 0, error >= 0 and the three error rules (argmax, sign count, binary sign). The convexity / smoothness / strong-convexity flags the implementation DECLARES are "
+             "dumped from the real objects into Gen/Flags.lean on every run and `flags_covered` / `strong_covered` / `strong_values_covered` (decide) require every flagged id to own a theorem or be in the short tested-only list "
+             "(55 theorems). Correspondence: 17 losses, 47 of 48 prototypes and the constraint kinds at Float vs the real code (1e-12 / 1e-9); python oracle: difference quotients, value-only = value+gradient, convexity "
+             "inequality with local search for violating pairs. One open known finding (linear::function_t strong convexity along the bias).",
+        note=NOTE_COMMON + "Non-convex functions: gradient correctness is tested only; eigenvalue-based flags (quadratic, quadratic constraints) are hypotheses of the theorems and tested; ML objective plumbing belongs to C09."),
+    "C08": dict(
+        category="proof", technique=TECH, design="DESIGN.md §4 C08",
+        text="Bit mask, typed storage pools with per-feature ranges, the sample iterators, the select / flatten / targets encoders of the identity generators (one-hot +-1 with missing -> NaN / -1), pairwise products, the column "
+             "bookkeeping and the drop / shuffle flag histories are modelled on top of the C16 tensor model. Proved: getbit/setbit, ranges tile the pools disjointly, storage refines the abstract map feature x sample -> option value "
+             "(never-set = missing), flatten = encode(select) for any sample list incl. repetitions, identity = stored, missing marked, targets and product specs, columns total and column -> feature, after ANY history of "
+             "drop/undrop/shuffle/unshuffle the view is the spec view transformed by the current flag and undrop+unshuffle restore it, the reported shuffle is the applied bijection, out-of-range sample indices are rejected and the "
+             "empty list accepted, well-formedness for every reachable dataset (18 theorems, core Lean only). Exact history differential against the real library on random schemas over all storage types, 1..16 threads; "
+             "independent python oracle recomputes every view from the stored-value formula; ASan in the thorough tier. One open known finding (gradient generator 1x1 select).",
+        note=NOTE_COMMON + "The gradient (image-kernel) generator is oracle-checked only; std::shuffle's permutation is read back and checked to be a bijection; stored values are small integers (no conversion rounding)."),
+    "C10": dict(
+        category="proof", technique=TECH, design="DESIGN.md §4 C10",
+        text="Moment accumulators, the sorted stump / hinge sweep with running moments and mid-point thresholds, the affine closed form (incl. the constant branch), dense and discrete-step tables, score clamping, min-reduce over "
+             "features, predict / split / scale / merge are modelled over any ordered field. Proved: the constant, affine, stump, hinge, dense-table and dstep fits attain the minimum RSS of their class (= brute force over all "
+             "features x candidate thresholds / label sets), running moments = prefix moments, the sweep is sound and complete, predicting with the fit reproduces the reported RSS, the fit is independent of the chunk -> worker "
+             "assignment, predict adds to the base and leaves missing samples untouched, predict = table[split], scale scales per group, merge preserves the summed prediction, mergeSort meets the sort contract, binary search in the "
+             "sorted hash table (20 theorems). Correspondence: fit / predict / split / scale / clone / merge of the 8 real learners on in-memory datasets (1..16 threads) vs the model at Float (1e-9, selection compared when the "
+             "runner-up margin exceeds 1e-9); python brute-force oracle.",
+        note=NOTE_COMMON + "kbest / ksplit tables and decision-tree fits are not modelled (their fitted parameters are read back and predict / split / scale / merge evaluated on them); AIC/AICc/BIC use log and are tested only."),
+    "C11": dict(
+        category="proof", technique=TECH_GEN, design="DESIGN.md §4 C11",
+        text="early_stopping_t::done is RE-TRANSLATED from src/gboost/early_stopping.cpp on every run; over the generated definition it is proved by induction over any history of calls that the stored round / value / snapshot are "
+             "those of an accepted call, that successive accepted values decrease by more than epsilon, that no later improvement was missed, that done <=> train < eps or (not accepted and learners >= round + patience), the "
+             "patience-rounds characterisation in the fit loop, round <= learners, no patience stop without validation samples; the fold keeps exactly the first `round` learners and equals the snapshot model, predict over appended "
+             "learners, and the averaged model predicts the mean (16 theorems). Correspondence: exhaustive error histories (length <= 6 quick / 8 thorough over a 5-value alphabet x patience x with/without validation) on the real "
+             "early_stopping_t vs the driver; full fits of linear (4 regularisers) and gboost models with every reported statistic recomputed from the stored per-fold / final models by the python oracle.",
+        note=NOTE_COMMON + "The gboost round-loop skeleton (Model/Boost.lean) is tied to model.cpp by textual anchors + the statistics recomputation, not by a differential run; numeric fit quality is not claimed."),
+    "C15": dict(
+        category="proof", technique=TECH_GEN, design="DESIGN.md §4 C15",
+        text="Byte-level codec combinators (u32/i32/u64/i64/raw/str/vec/seq/dependent seq/factory-tagged) and the wire formats of tensor (version, rank, dims, hash, payload), parameter (7 kinds), configurable (version compatibility), "
+             "feature, learner, linear model, the 8 weak learners and the gboost model are modelled; library version, hash version and the hash_combine expression are RE-TRANSLATED from the source on every run. Proved for every "
+             "well-formed object: decode(encode x ++ rest) = (x, rest) and every strict prefix of every valid stream is rejected, for each combinator and each format; tensor header mismatches, unknown factory ids / parameter tags "
+             "and newer versions are rejected; hash_combine is injective in the element, so corrupting the last payload element is always detected and any payload corruption is detected iff the 64-bit fold differs "
+             "(55 theorems, core Lean only; full payload-corruption detection is `_partial`: collision-freedom is not provable). Correspondence: real streams of configured / fitted objects decoded and re-encoded by the model to identical "
+             "bytes with equal fields, EVERY truncation offset and single-byte corruptions: accept / reject and decoded value must agree; ASan in the thorough tier.",
+        note=NOTE_COMMON + "Little-endian x86-64 memory layout is assumed; payloads are opaque bytes; header corruptions that keep the element count are accepted by code and model alike (outside the statement)."),
+    "C18": dict(
+        category="other", technique="Lean 4 proof of the sharing discipline on the C17/C13/C16 models (partial) + source scan re-generated on every run; concurrent-vs-sequential runs and ThreadSanitizer are tests", design="DESIGN.md §4 C18",
+        text="PARTIAL. A data race is a fact about the C++ memory model and the compiled code that no Lean model of the library exhibits, so 'no data races' and 'bit-identical results' are not proved. Proved (8 theorems, all schedules): "
+             "tasks running at the same time have different worker ids so per-worker buffers are never written concurrently (C17 protocol model); the (trial, fold) tasks of ml::tune write disjoint in-bounds ranges; sum_reduce / "
+             "min_reduce are independent of the chunk -> worker assignment in exact arithmetic (min: unique best feature); minimize with per-call line-search clones depends on its own arguments only; every mutable member / non-const "
+             "static / pointer member found by a scan of the CURRENT sources (Gen/MutableState.lean, regenerated on every run) is in a reviewed allow-list (decide). Tested, labelled as testing: the same calls alone vs from 2..16 threads "
+             "on one shared solver / loss / dataset / fitted model must be bit-identical; fits under pools of 1..16 threads, restricted affinity and injected delays must select the same features; thorough tier under ThreadSanitizer. "
+             "One open known finding (exact score ties between duplicated columns are broken by the schedule).",
+        note=NOTE_COMMON + "The regex-level scan is not a C++ parser and the allow-list reasons are a human review; TSan observes only the schedules that happened."),
 }
+
+# entries of CLAIMED that are written but not yet registered (their check is not yet stable on the unchanged tree)
+HOLD = {"C18": "check built (Props/C18.lean, harness/c18.cpp) but not yet stable on the unchanged tree: schedule-dependent weak-learner selection under exact score ties is being repaired; not claimed until green at >= 5 seeds"}
 
 PENDING = "check under construction in this session; not claimed until its quick check is green on the unchanged tree at several seeds"
 
@@ -109,7 +202,7 @@ def main():
     checks = []
     for p in props:
         pid = p["id"]
-        if pid not in CLAIMED:
+        if pid not in CLAIMED or pid in HOLD:
             continue
         c = CLAIMED[pid]
         checks.append({
@@ -127,11 +220,11 @@ def main():
         "version": 1,
         "setup_cmd": "python3 tools/setup.py",
         "hooks": old["hooks"],
-        "engines": [{"name": "lean4-model+correspondence", "path": "/verif/lean", "serves_properties": sorted(CLAIMED),
+        "engines": [{"name": "lean4-model+correspondence", "path": "/verif/lean", "serves_properties": sorted(set(CLAIMED) - set(HOLD)),
                      "kind_free_text": "Lean 4 models + kernel-checked theorems (lake project); compiled Lean drivers run against the real code "
                                        "through C++ harnesses; orchestrated by tools/check.py"}],
         "checks": checks,
-        "not_applicable": [{"property_id": p["id"], "reason": PENDING} for p in props if p["id"] not in CLAIMED],
+        "not_applicable": [{"property_id": p["id"], "reason": HOLD.get(p["id"], PENDING)} for p in props if p["id"] not in CLAIMED or p["id"] in HOLD],
         "notes": "see DESIGN.md; KNOWN_FINDINGS.json lists repaired (fix: commits in /repo) and open findings",
     }
     json.dump(man, open(os.path.join(VERIF, "MANIFEST.json"), "w"), indent=1)
